@@ -354,9 +354,68 @@ func c08Seal(c *core.Ctx, la *lockAnalysis) {
 				n++
 				// dominated by a false `committed` test on the same buffer, with no unlock between the test and the store
 				sealed := false
+				want := facts.Term(base)
+				// `!committed` established by a private helper that returned nil, called in
+				// this critical section: no unlock between that call and the store
+				for _, cd0 := range facts.CondsAt(b) {
+					x, isNil, okN := facts.NilCheck(cd0)
+					if !okN || !isNil {
+						continue
+					}
+					call, isCall := facts.Resolve(x).(*ssa.Call)
+					if !isCall {
+						continue
+					}
+					implied := false
+					h := call.Call.StaticCallee()
+					if h == nil || h.Blocks == nil || len(privateCallSites(h)) == 0 {
+						continue
+					}
+					nilRets, okAll := 0, true
+					for _, r := range returnsOf(h) {
+						if facts.ProvablyNonNil(facts.RetVal(r, len(r.Results)-1), r.Block()) {
+							continue
+						}
+						nilRets++
+						got := false
+						withParams(h, call, func() {
+							forEachCondImplied(r.Block(), 1, func(c2 facts.Cond) {
+								b2, f2, ok := facts.FieldOf(facts.Resolve(c2.V))
+								if ok && f2 == "committed" && !c2.Pos && facts.Term(b2) == want {
+									got = true
+								}
+							})
+						})
+						if !got {
+							okAll = false
+						}
+					}
+					implied = nilRets > 0 && okAll && !helperTouches(h, 2, func(i ssa.Instruction) bool {
+						ci, ok := i.(*ssa.Call)
+						if !ok {
+							return false
+						}
+						_, kind, ok := lockCall(ci)
+						return ok && kind == "unlock"
+					})
+					if implied {
+						unlockBetween := func(i ssa.Instruction) bool {
+							ci, ok := i.(*ssa.Call)
+							if !ok {
+								return false
+							}
+							_, kind, ok := lockCall(ci)
+							return ok && kind == "unlock"
+						}
+						isStore := func(i ssa.Instruction) bool { return i == in }
+						if _, reach := facts.ReachesWithout(call, unlockBetween, isStore, nil); !reach {
+							sealed = true
+						}
+					}
+				}
 				for _, cd := range facts.CondsAt(b) {
 					b2, f2, ok := facts.FieldOf(facts.Resolve(cd.V))
-					if ok && f2 == "committed" && !cd.Pos && facts.Term(b2) == facts.Term(base) {
+					if ok && f2 == "committed" && !cd.Pos && facts.Term(b2) == want {
 						unlockBetween := func(i ssa.Instruction) bool {
 							ci, ok := i.(*ssa.Call)
 							if !ok {
